@@ -22,7 +22,7 @@ import props as P
 # VERIF_EVIDENCE_DIR: self-tests that run the check on a deliberately broken tree (vk/run_seeds.py) write their evidence elsewhere,
 # so that /verif/evidence always describes a run on the real tree
 EVID = os.environ.get("VERIF_EVIDENCE_DIR") or os.path.join(VERIF, "evidence")
-REPLAYS = os.path.join(VERIF, "replays")
+REPLAYS = (os.path.join(os.environ["VERIF_EVIDENCE_DIR"], "replays") if os.environ.get("VERIF_EVIDENCE_DIR") else os.path.join(VERIF, "replays"))   # self-tests on broken trees keep their replay files out of /verif too
 
 
 def load_known():
@@ -39,11 +39,19 @@ def finding_matches(f, prop, fail):
         return False
     if f.get("detail") and f["detail"] != fail.get("detail", ""):
         return False
-    # a finding of the bounded sweep is pinned to the scenario that shows it: another failing scenario of the same clause is a new violation
+    # a finding of the bounded sweep is pinned to the scenario(s) that show it: another failing scenario of the same clause is a new violation
     w = fail.get("sweep_witness")
-    if f.get("scenario") and w and w.get("scenario") != f["scenario"]:
+    if f.get("scenario") and w and not finding_covers(f, w.get("family"), w.get("scenario")):
         return False
     return True
+
+
+def finding_covers(f, family, scenario):
+    """does the open finding f list this sweep scenario?  exact scenario, or - for a defect every scenario of a class shows - the regular expression scenario_pattern over `family:scenario`"""
+    if scenario == f.get("scenario"):
+        return True
+    pat = f.get("scenario_pattern")
+    return bool(pat and re.fullmatch(pat, "%s:%s" % (family, scenario)))
 
 
 def thorough_extras(prop, cfg, infra):
@@ -289,8 +297,13 @@ def main():
                                 bound="%d scenarios: %s" % (sweep_res["scenarios"], json.dumps(sweep_res["families"])),
                                 status="FAILED" if sweep_res["violations"] else "SUCCESSFUL", label=prop + ".*"))
             have = set(f["label"] for f in failures)
+            open_known = [k for k in load_known() if k.get("status") == "open" and k.get("property") == prop]
             for sv in sweep_res["violations"]:
-                fam, sc = sv["scenario"].split(":", 1)
+                # the witness is the first violating scenario that NO open finding of this clause lists (so that a finding never hides another scenario); if they are all listed, the first
+                covered = lambda s: any(k.get("obligation", "").endswith("::" + sv["label"]) and finding_covers(k, s.split(":", 1)[0], s.split(":", 1)[1]) for k in open_known)
+                pick = next((s for s in sv.get("all", [sv["scenario"]]) if not covered(s)), sv["scenario"])
+                fam, sc = pick.split(":", 1)
+                sv = dict(sv, scenario=pick)
                 wit = dict(found=True, family=fam, scenario=sc, label_searched=sv["label"], source="bounded native sweep")
                 hit = [f for f in failures if f["label"] == sv["label"]]
                 if hit:
